@@ -133,3 +133,61 @@ fn u3_body(which: u8, n: usize) {
 harness! { fn c17_u3_write_utf16le_len3() unwind(12) stubs(std::fmt::format => crate::common::stub_fmt_format) { u3_body(0, 3) } }
 harness! { fn c17_u3_write_utf16be_len3() unwind(12) stubs(std::fmt::format => crate::common::stub_fmt_format) { u3_body(1, 3) } }
 harness! { fn c17_u3_write_utf8_len3() unwind(12) stubs(std::fmt::format => crate::common::stub_fmt_format) { u3_body(2, 3) } }
+
+use pasfmt_core::prelude::*;
+use pasfmt_orchestrator::file_formatter::FileFormatter;
+
+fn file_formatter(enc: &'static encoding_rs::Encoding) -> &'static FileFormatter {
+    let f = Formatter::builder()
+        .lexer(DelphiLexer {})
+        .parser(DelphiLogicalLineParser {})
+        .reconstructor(DelphiLogicalLinesReconstructor::new(recon_settings(false, false, 2, 2)))
+        .build();
+    Box::leak(Box::new(FileFormatter::new(f, enc)))
+}
+
+/// U2: the real `decode_file` on `bom ++ payload`: the BOM selects the encoding (overriding the
+/// configured one), is stripped and remembered, and the decoded text is exactly the payload --
+/// nothing more is stripped (payload = optional second U+FEFF + symbolic ASCII bytes, UTF-8).
+fn u2_body(with_bom: bool, second_feff: bool, n: usize) {
+    let mut arr = [0u8; 16];
+    let mut len = 0;
+    if with_bom {
+        arr[0] = 0xEF; arr[1] = 0xBB; arr[2] = 0xBF;
+        len = 3;
+    }
+    let payload_start = len;
+    if second_feff {
+        arr[len] = 0xEF; arr[len + 1] = 0xBB; arr[len + 2] = 0xBF;
+        len += 3;
+    }
+    let mut k = 0;
+    while k < n {
+        let b: u8 = kani::any();
+        kani::assume(b < 0x80);
+        arr[len] = b;
+        len += 1;
+        k += 1;
+    }
+    // configured encoding differs from what the BOM says: the BOM must win
+    let configured = if with_bom { encoding_rs::WINDOWS_1252 } else { encoding_rs::UTF_8 };
+    let ff = file_formatter(configured);
+    let buf: &'static mut Vec<u8> = Box::leak(Box::new(Vec::with_capacity(32)));
+    let r = fh::decode_file(ff, &arr[..len], buf);
+    let (bom, contents, enc) = r.ok().expect("valid UTF-8 must decode");
+    assert!(enc == encoding_rs::UTF_8);
+    assert!(bom.is_some() == with_bom);
+    if let Some(b) = bom {
+        assert!(b.len() == 3 && b[0] == 0xEF && b[1] == 0xBB && b[2] == 0xBF);
+    }
+    let c = contents.as_bytes();
+    assert!(c.len() == len - payload_start, "decoded text is not exactly the bytes after the BOM");
+    let i: usize = kani::any();
+    kani::assume(i < c.len());
+    assert!(c[i] == arr[payload_start + i], "decoded text differs from the payload");
+    cover!(c.len() > 3, "has_payload");
+    std::mem::forget(contents);
+}
+harness! { fn c17_u2_decode_bom_then_feff_n1() unwind(20) stubs(std::fmt::format => crate::common::stub_fmt_format) { u2_body(true, true, 1) } }
+harness! { fn c17_u2_decode_bom_n2() unwind(20) stubs(std::fmt::format => crate::common::stub_fmt_format) { u2_body(true, false, 2) } }
+harness! { fn c17_u2_decode_nobom_feff_n1() unwind(20) stubs(std::fmt::format => crate::common::stub_fmt_format) { u2_body(false, true, 1) } }
